@@ -103,6 +103,7 @@ pub trait DiffHook: Sized {
     /*@*/         res.is_ok() ==> (*final(self)).rely_st() == step_rel((*old(self)).rely_rel(), (*old(self)).rely_st(), Ev::Replace(old_index, old_len, new_index, new_len)),
     /*@*/         replace_trace((*old(self)).trace(), (*final(self)).trace(), old_index, old_len, new_index, new_len, res.is_err()),
     {
+        /*@*/ proof { reveal(step_rel); }
         self.delete(old_index, old_len, new_index)?;
         self.insert(old_index, new_index, new_len)
     }
